@@ -52,7 +52,7 @@ type Enc struct {
 
 	sortCache map[types.Type]string
 	selT      map[string]types.Type // Go type of the value a selector yields
-	funs      map[string]*FunDecl // declared uninterpreted functions / constants
+	funs      map[string]*FunDecl   // declared uninterpreted functions / constants
 	funOrder  []string
 }
 
